@@ -69,11 +69,9 @@ Example C01_decimal_message_example :
     = Ok (map byte_of_N ([49; 49; 52; 52] ++ [140] ++ repeat 0 15
                          ++ [45; 48; 48; 49; 50; 46; 53; 48]                      (* -0012.50 *)
                          ++ [48; 54] ++ [48; 48; 46; 48; 48; 55])%N) /\            (* 06 00.007 *)
-    (forall hexbm, match dumps c01dec_cfg cd hexbm c01dec_msg with
-                   | Ok b => loads c01dec_cfg cd hexbm b = Ok c01dec_msg
-                   | _ => False
-                   end)
+    (do b <- dumps c01dec_cfg cd false c01dec_msg; loads c01dec_cfg cd false b) = Ok c01dec_msg /\
+    (do b <- dumps c01dec_cfg cd true c01dec_msg; loads c01dec_cfg cd true b) = Ok c01dec_msg
   | None => False
   end.
-Proof. vm_compute. repeat split. intros [|]; vm_compute; reflexivity. Qed.
+Proof. vm_compute. repeat split; reflexivity. Qed.
 Print Assumptions C01_decimal_message_example.
